@@ -85,22 +85,22 @@ Proof. intros H. rewrite <- (firstn_skipn n l) in H. apply Forall_app in H. taut
 Lemma Forall_skipn' {A} (P : A -> Prop) n l : Forall P l -> Forall P (skipn n l).
 Proof. intros H. rewrite <- (firstn_skipn n l) in H. apply Forall_app in H. tauto. Qed.
 
-Lemma read_loop_step : forall fu f pos r c acc todo z,
-  file_ok f -> DATA0 <= pos -> mbr_inv r ->
+Lemma read_loop_step : forall fu rd r c acc todo z,
+  mbr_inv r ->
   Forall rec_ok todo -> Forall rec_nonempty todo ->
-  mbr_view r ++ tail_from f pos = fr todo ++ 0 :: repeat 0 z ->
+  mbr_view r ++ rdr_view rd = fr todo ++ 0 :: repeat 0 z ->
   c <= nlen todo ->
-  (length (tail_from f pos) <= 1024 * fu)%nat ->
-  read_loop (S fu) f pos r c acc = Ok (rev acc ++ firstn (N.to_nat c) todo)
-  \/ exists r2 c' acc' todo' ch z',
-       ch <> [] /\ data_read f pos 1024 = ch /\
-       read_loop (S fu) f pos r c acc = read_loop fu f (pos + N.of_nat (length ch)) r2 c' acc' /\
+  (length (rdr_view rd) <= 1024 * fu)%nat ->
+  read_loop (S fu) rd r c acc = Ok (rev acc ++ firstn (N.to_nat c) todo)
+  \/ exists r2 rd' c' acc' todo' z',
+       rdr_view rd <> [] /\ length (rdr_view rd') = (length (rdr_view rd) - 1024)%nat /\
+       read_loop (S fu) rd r c acc = read_loop fu rd' r2 c' acc' /\
        mbr_inv r2 /\ Forall rec_ok todo' /\ Forall rec_nonempty todo' /\
-       mbr_view r2 ++ tail_from f (pos + N.of_nat (length ch)) = fr todo' ++ 0 :: repeat 0 z' /\
+       mbr_view r2 ++ rdr_view rd' = fr todo' ++ 0 :: repeat 0 z' /\
        c' <= nlen todo' /\
        rev acc' ++ firstn (N.to_nat c') todo' = rev acc ++ firstn (N.to_nat c) todo.
 Proof.
-  intros fu f pos r c acc todo z Hfok Hpos Hinv Hok Hne Hstream Hc Hfu.
+  intros fu rd r c acc todo z Hinv Hok Hne Hstream Hc Hfu.
   cbn [read_loop]. destruct (c =? 0) eqn:Ec.
   { left. replace (N.to_nat c) with 0%nat by lia. cbn [firstn]. rewrite app_nil_r. reflexivity. }
   assert (Hzb : all_bytes (0 :: repeat 0 z)).
@@ -114,14 +114,15 @@ Proof.
   rewrite map_app, frames_app, <- !fr_frames, Hview, <- !app_assoc in Hstream.
   apply app_inv_head in Hstream.
   assert (Hresid_bytes : all_bytes resid).
-  { assert (Ha : all_bytes (resid ++ tail_from f pos)).
+  { assert (Ha : all_bytes (resid ++ rdr_view rd)).
     { rewrite Hstream. apply Forall_app. split; [apply fr_all_bytes; assumption|exact Hzb]. }
     apply Forall_app in Ha. tauto. }
   assert (Hvl : (length (mbr_view r) <= en r - st r)%nat) by (rewrite mbr_view_length by exact Hinv; lia).
   assert (Hfuel : (length t1 < S (S (en r - st r)))%nat).
   { rewrite Hview, app_length in Hvl. rewrite fr_frames in Hvl.
     pose proof (frames_length_ge (map rec_body t1)) as Hg. rewrite map_length in Hg. lia. }
-  rewrite (data_read_spec f pos 1024 Hfok Hpos).
+  destruct (rdr_read_spec rd 1024) as [Hrd1 Hrd2].
+  destruct (rdr_read rd 1024) as [ch rd'] eqn:Erd. cbn [fst snd] in Hrd1, Hrd2.
   destruct (N.leb c (nlen t1)) eqn:Ehit.
   - (* all requested records are already buffered *)
     left.
@@ -141,12 +142,12 @@ Proof.
       assert (Hres : rev (rev (firstn (N.to_nat c) t1) ++ acc) = rev acc ++ firstn (N.to_nat c) (t1 ++ t2)).
       { rewrite rev_rev_app, firstn_app. replace (N.to_nat c - length t1)%nat with 0%nat by lia.
         cbn [firstn]. rewrite app_nil_r. reflexivity. }
-      destruct (firstn 1024 (tail_from f pos)) as [|b ch'] eqn:Ech.
+      destruct ch as [|b ch'].
       * rewrite Hres. reflexivity.
       * destruct (mbr_append_view r1 (b :: ch') Hinv1) as (r2 & Ha & Hinv2 & Hv2).
         rewrite Ha. cbn [res_bind].
         destruct fu as [|fu'].
-        { destruct (tail_from f pos); [cbn [firstn] in Ech; discriminate|cbn [length] in Hfu; lia]. }
+        { destruct (rdr_view rd); [cbn [firstn] in Hrd1; discriminate|cbn [length] in Hfu; lia]. }
         cbn [read_loop]. replace (0 =? 0) with true by reflexivity. rewrite Hres. reflexivity.
   - (* more records are needed than are buffered: t1 is consumed, the window is stuck *)
     right.
@@ -162,65 +163,59 @@ Proof.
       try assumption.
     rewrite Hd. cbn [res_bind].
     (* the rest of record x is still in the file: the read is not empty *)
-    assert (Htail : tail_from f pos = y ++ fr t2 ++ 0 :: repeat 0 z).
+    assert (Htail : rdr_view rd = y ++ fr t2 ++ 0 :: repeat 0 z).
     { rewrite fr_cons in Hstream. unfold rec_frame in Hstream. rewrite <- Hfr, <- !app_assoc in Hstream.
       apply app_inv_head in Hstream. exact Hstream. }
-    destruct (firstn 1024 (tail_from f pos)) as [|b ch'] eqn:Ech.
-    { rewrite Htail in Ech. destruct y; [congruence|]. cbn [app firstn] in Ech. discriminate. }
+    assert (Hvne : rdr_view rd <> []).
+    { rewrite Htail. destruct y; [congruence|discriminate]. }
+    destruct (firstn 1024 (rdr_view rd)) as [|b ch'] eqn:Ech.
+    { destruct (rdr_view rd); [congruence|cbn [firstn] in Ech; discriminate]. }
     destruct (mbr_append_view r1 (b :: ch') Hinv1) as (r2 & Ha & Hinv2 & Hv2).
     rewrite Ha. cbn [res_bind].
-    exists r2, (c - nlen t1), (rev t1 ++ acc), (x :: t2), (b :: ch'), z.
-    split; [discriminate|]. split; [reflexivity|]. split; [reflexivity|].
+    exists r2, rd', (c - nlen t1), (rev t1 ++ acc), (x :: t2), z.
+    assert (Hchl : length (b :: ch') = Nat.min 1024 (length (rdr_view rd))).
+    { rewrite <- Ech. apply firstn_length. }
+    split; [exact Hvne|]. split; [rewrite Hrd2, skipn_length; reflexivity|].
+    split; [reflexivity|].
     split; [exact Hinv2|]. split; [constructor; assumption|]. split; [constructor; assumption|].
     split; [|split].
-    + rewrite Hv2, Hv1, tail_from_advance by exact Hpos. rewrite <- Ech.
-      rewrite <- app_assoc, firstn_skipn_len. exact Hstream.
+    + rewrite Hv2, Hv1, Hrd2, <- Ech. rewrite <- app_assoc, firstn_skipn. exact Hstream.
     + rewrite nlen_cons in *. lia.
     + rewrite rev_rev_app, <- app_assoc. f_equal. rewrite firstn_app. f_equal.
       * symmetry. apply firstn_all2. unfold nlen in Hc1. lia.
       * f_equal. unfold nlen. lia.
 Qed.
 
-Lemma read_loop_gen : forall fu f pos r c acc todo z,
-  file_ok f -> DATA0 <= pos -> mbr_inv r ->
+Lemma read_loop_gen : forall fu rd r c acc todo z,
+  mbr_inv r ->
   Forall rec_ok todo -> Forall rec_nonempty todo ->
-  mbr_view r ++ tail_from f pos = fr todo ++ 0 :: repeat 0 z ->
+  mbr_view r ++ rdr_view rd = fr todo ++ 0 :: repeat 0 z ->
   c <= nlen todo ->
-  (length (tail_from f pos) <= 1024 * fu)%nat ->
-  read_loop (S fu) f pos r c acc = Ok (rev acc ++ firstn (N.to_nat c) todo).
+  (length (rdr_view rd) <= 1024 * fu)%nat ->
+  read_loop (S fu) rd r c acc = Ok (rev acc ++ firstn (N.to_nat c) todo).
 Proof.
-  induction fu as [|fu IH]; intros f pos r c acc todo z Hfok Hpos Hinv Hok Hne Hstream Hc Hfu;
-    destruct (read_loop_step _ f pos r c acc todo z Hfok Hpos Hinv Hok Hne Hstream Hc Hfu)
-      as [H|(r2 & c' & acc' & todo' & ch & z' & Hch & Hrd & Hstep & Hinv2 & Hok' & Hne' & Hstream' & Hc' & Hres)];
+  induction fu as [|fu IH]; intros rd r c acc todo z Hinv Hok Hne Hstream Hc Hfu;
+    destruct (read_loop_step _ rd r c acc todo z Hinv Hok Hne Hstream Hc Hfu)
+      as [H|(r2 & rd' & c' & acc' & todo' & z' & Hvne & Hl1 & Hstep & Hinv2 & Hok' & Hne' & Hstream' & Hc' & Hres)];
     try exact H.
-  - exfalso. rewrite (data_read_spec f pos 1024 Hfok Hpos) in Hrd.
-    destruct (tail_from f pos); [cbn [firstn] in Hrd; congruence|cbn [length] in Hfu; lia].
-  - rewrite Hstep, <- Hres. apply (IH f _ r2 c' acc' todo' z'); try assumption; try lia.
-    rewrite tail_from_advance by exact Hpos. rewrite skipn_length.
-    rewrite (data_read_spec f pos 1024 Hfok Hpos) in Hrd.
-    assert (length ch = Nat.min 1024 (length (tail_from f pos))) by (rewrite <- Hrd; apply firstn_length).
-    destruct ch; [congruence|]. cbn [length] in *. lia.
+  - exfalso. destruct (rdr_view rd); [congruence|cbn [length] in Hfu; lia].
+  - rewrite Hstep, <- Hres. apply (IH rd' r2 c' acc' todo' z'); try assumption. lia.
 Qed.
 
 (** * FileMessageReader: read_len at a record boundary, read_index_position *)
 Lemma firstn_app_le {A} n (a b : list A) : (length a <= n)%nat -> firstn n (a ++ b) = a ++ firstn (n - length a) b.
 Proof. intros H. rewrite firstn_app, firstn_all2 by exact H. reflexivity. Qed.
 
-Lemma pos_read_len_frame c pre x post :
-  wfc c -> c_all c = pre ++ x :: post ->
-  pos_read_len (c_file c) (DATA0 + frl pre) = Ok (nlen (rec_frame x)).
+Lemma pos_read_len_frame rd x rest :
+  rec_ok x -> rec_nonempty x -> all_bytes rest ->
+  rdr_view rd = rec_frame x ++ rest ->
+  pos_read_len rd = Ok (nlen (rec_frame x)).
 Proof.
-  intros W Hall.
-  destruct (tail_from_conc c pre (x :: post) W Hall) as [z Hz].
-  pose proof (c_file_ok c W) as Hfok.
-  assert (Hrs : Forall rec_ok (x :: post) /\ Forall rec_nonempty (x :: post)).
-  { pose proof (wf_ok c W) as H1. pose proof (wf_nonempty c W) as H2. rewrite Hall in *.
-    apply Forall_app in H1. apply Forall_app in H2. tauto. }
-  destruct Hrs as [Hok Hne]. inversion Hok as [|? ? Hx Hok']; subst. inversion Hne as [|? ? Hxn Hne']; subst.
-  unfold pos_read_len. rewrite (data_read_spec _ _ 10 Hfok) by lia. rewrite Hz.
-  rewrite fr_cons, <- app_assoc. unfold rec_frame at 1 2, frame. rewrite <- app_assoc.
+  intros Hx Hxn Hrest Hv.
+  unfold pos_read_len. destruct (rdr_read_spec rd 10) as [H1 _]. rewrite H1, Hv.
+  unfold rec_frame at 1 2, frame. rewrite <- app_assoc.
   set (L := N.of_nat (length (rec_body x))).
-  set (R := rec_body x ++ fr post ++ 0 :: repeat 0 z).
+  set (R := rec_body x ++ rest).
   assert (HL : L < 2 ^ 64).
   { pose proof (rec_body_length_bound x Hx). assert (2 ^ 63 < 2 ^ 64) by (vm_compute; reflexivity).
     subst L. lia. }
@@ -230,9 +225,7 @@ Proof.
   destruct (length (write_varint L) + length (firstn (10 - length (write_varint L)) R) =? 0)%nat eqn:E; [lia|].
   rewrite <- app_assoc.
   assert (HR : all_bytes R).
-  { subst R. apply Forall_app. split; [apply rec_body_all_bytes; exact Hx|].
-    apply Forall_app. split; [apply fr_all_bytes; assumption|].
-    constructor; [unfold is_byte; lia|apply all_bytes_repeat0]. }
+  { subst R. apply Forall_app. split; [apply rec_body_all_bytes; exact Hx|exact Hrest]. }
   rewrite varint_roundtrip_list; [|exact HL|].
   - assert (HLne : (L =? 0) = false).
     { pose proof (rec_body_nonempty x Hxn). subst L. destruct (rec_body x); [congruence|cbn [length]; lia]. }
@@ -241,20 +234,32 @@ Proof.
   - apply Forall_app. split; [apply Forall_firstn'; exact HR|apply all_bytes_repeat0].
 Qed.
 
-Lemma pos_skip_frames c : wfc c -> forall mid pre x post,
-  c_all c = pre ++ mid ++ x :: post ->
-  pos_skip (length mid) (c_file c) (DATA0 + frl pre) = Ok (DATA0 + frl (pre ++ mid), nlen (rec_frame x)).
+Lemma rdr_skip_view rd k : rdr_view (rdr_skip rd k) = skipn k (rdr_view rd).
+Proof. unfold rdr_skip. apply (proj2 (rdr_read_spec rd k)). Qed.
+
+Lemma pos_skip_frames : forall mid rd pos x rest,
+  Forall rec_ok mid -> Forall rec_nonempty mid -> rec_ok x -> rec_nonempty x -> all_bytes rest ->
+  rdr_view rd = fr mid ++ rec_frame x ++ rest ->
+  exists rd', pos_skip (length mid) rd pos = Ok (pos + frl mid, nlen (rec_frame x), rd') /\
+              rdr_view rd' = rec_frame x ++ rest.
 Proof.
-  intros W. induction mid as [|m mid IH]; intros pre x post Hall.
-  - cbn [length pos_skip app] in *. rewrite (pos_read_len_frame c pre x post W Hall). cbn [res_bind].
-    rewrite app_nil_r. reflexivity.
-  - cbn [length pos_skip]. cbn [app] in Hall.
-    rewrite (pos_read_len_frame c pre m (mid ++ x :: post) W Hall). cbn [res_bind].
-    replace (DATA0 + frl pre + nlen (rec_frame m)) with (DATA0 + frl (pre ++ [m]))
-      by (rewrite frl_app, frl_one; lia).
-    rewrite (IH (pre ++ [m]) x post).
-    + rewrite <- app_assoc. reflexivity.
-    + rewrite <- app_assoc. exact Hall.
+  induction mid as [|m mid IH]; intros rd pos x rest Hok Hne Hx Hxn Hrest Hv.
+  - cbn [length pos_skip]. cbn [fr map concat app] in Hv.
+    rewrite (pos_read_len_frame rd x rest Hx Hxn Hrest Hv). cbn [res_bind].
+    exists rd. rewrite frl_nil, N.add_0_r. auto.
+  - cbn [length pos_skip].
+    inversion Hok as [|? ? Hm Hok']; subst. inversion Hne as [|? ? Hmn Hne']; subst.
+    rewrite fr_cons, <- app_assoc in Hv.
+    assert (Hrest' : all_bytes (fr mid ++ rec_frame x ++ rest)).
+    { apply Forall_app. split; [apply fr_all_bytes; assumption|].
+      apply Forall_app. split; [|exact Hrest]. apply frame_all_bytes, rec_body_ok; assumption. }
+    rewrite (pos_read_len_frame rd m _ Hm Hmn Hrest' Hv). cbn [res_bind].
+    destruct (IH (rdr_skip rd (N.to_nat (nlen (rec_frame m)))) (pos + nlen (rec_frame m)) x rest)
+      as (rd' & Hs & Hv'); try assumption.
+    + rewrite rdr_skip_view, Hv. unfold nlen. rewrite Nat2N.id, skipn_app, skipn_all, Nat.sub_diag.
+      reflexivity.
+    + exists rd'. rewrite Hs. split; [|exact Hv']. f_equal. f_equal. f_equal.
+      unfold frl at 2. rewrite fr_cons, nlen_app. unfold frl. lia.
 Qed.
 
 (** * get_start_index on the canonical index list *)
@@ -327,9 +332,11 @@ Proof.
   set (k0 := N.to_nat (s0 - c_first c)).
   assert (Hk0 : (k0 < length (c_all c))%nat) by (unfold nlen in Hs0; lia).
   (* the index entry *)
-  unfold get_start_index. cbn [conc l_indexs]. unfold ixs_of at 1 2.
-  rewrite find_start_ixs by lia. cbv zeta.
   set (j := Nat.min (length (c_blocks c)) (N.to_nat ((s0 - c_first c) / 128))).
+  assert (Hix : get_start_index (conc c) s0 =
+                (c_first c + 128 * N.of_nat j, DATA0 + frl (concat (firstn j (c_blocks c))))).
+  { unfold get_start_index. cbn [conc l_indexs]. unfold ixs_of. rewrite find_start_ixs by lia. reflexivity. }
+  rewrite Hix. clear Hix.
   assert (Hall_len : length (c_all c) = (128 * length (c_blocks c) + length (c_part c))%nat).
   { unfold c_all. rewrite app_length. unfold nlen in Hcb. lia. }
   assert (Hj : j = (k0 / 128)%nat).
@@ -355,24 +362,51 @@ Proof.
   set (x := nth m rest (mkRec 0 0 [])) in *.
   assert (Hall : c_all c = pre ++ mid ++ x :: post) by (rewrite Hsplit, Hrest; reflexivity).
   replace (N.to_nat (s0 - (c_first c + 128 * N.of_nat j))) with (length mid) by (rewrite Hmid; lia).
-  rewrite (pos_skip_frames c W mid pre x post Hall).
-  (* the loop *)
   pose proof (c_file_ok c W) as Hfok.
-  assert (Hall' : c_all c = (pre ++ mid) ++ x :: post) by (rewrite <- app_assoc; exact Hall).
-  destruct (tail_from_conc c (pre ++ mid) (x :: post) W Hall') as [z Hz].
-  assert (Hrs : Forall rec_ok (x :: post) /\ Forall rec_nonempty (x :: post)).
-  { pose proof (wf_ok c W) as H1. pose proof (wf_nonempty c W) as H2. rewrite Hall' in *.
+  destruct (tail_from_conc c pre (mid ++ x :: post) W Hall) as [z Hz].
+  assert (Hpos : DATA0 <= DATA0 + frl pre) by lia.
+  rewrite <- (rdr_open_view _ _ Hfok Hpos) in Hz.
+  assert (Hrs : Forall rec_ok (mid ++ x :: post) /\ Forall rec_nonempty (mid ++ x :: post)).
+  { pose proof (wf_ok c W) as H1. pose proof (wf_nonempty c W) as H2. rewrite Hall in *.
     apply Forall_app in H1. apply Forall_app in H2. tauto. }
   destruct Hrs as [Hok Hne].
+  apply Forall_app in Hok. destruct Hok as [Hokm Hokx].
+  apply Forall_app in Hne. destruct Hne as [Hnem Hnex].
+  inversion Hokx as [|? ? Hx Hokp]; subst. inversion Hnex as [|? ? Hxn Hnep]; subst.
+  assert (Hrestb : all_bytes (fr post ++ 0 :: repeat 0 z)).
+  { apply Forall_app. split; [apply fr_all_bytes; assumption|].
+    constructor; [unfold is_byte; lia|apply all_bytes_repeat0]. }
+  rewrite fr_app, fr_cons, <- !app_assoc in Hz.
+  destruct (pos_skip_frames mid (rdr_open (c_file c) (DATA0 + frl pre)) (DATA0 + frl pre)
+              (nth m rest (mkRec 0 0 [])) (fr post ++ 0 :: repeat 0 z)) as (rd' & Hskip & Hv'); try assumption.
+  rewrite Hskip.
+  (* the loop *)
+  assert (Hall' : c_all c = (pre ++ mid) ++ nth m rest (mkRec 0 0 []) :: post) by (rewrite <- app_assoc; exact Hall).
   destruct mbr_new_inv as [Hninv Hnview].
-  rewrite (read_loop_gen _ (c_file c) (DATA0 + frl (pre ++ mid)) mbr_new (e0 - s0) [] (x :: post) z);
-    try assumption; try lia.
-  - cbn [rev app]. f_equal. f_equal. f_equal.
-    rewrite Hall'. fold k0. rewrite skipn_app.
-    assert (Hpm : length (pre ++ mid) = k0) by (rewrite app_length; lia).
-    rewrite Hpm, Nat.sub_diag. cbn [skipn]. rewrite skipn_all2 by lia. reflexivity.
-  - assert (nlen (c_all c) = nlen (pre ++ mid) + nlen (x :: post)) by (rewrite Hall', nlen_app; reflexivity).
-    assert (nlen (pre ++ mid) = N.of_nat k0) by (unfold nlen; rewrite app_length; lia).
-    lia.
-  - apply scan_fuel_enough; [exact Hfok|lia].
+  subst x. set (xx := nth m rest (mkRec 0 0 [])) in *.
+  assert (Hloop : read_loop (S (scan_fuel (c_file c) (DATA0 + frl pre + frl mid))) rd' mbr_new (e0 - s0) []
+                  = Ok (rev [] ++ firstn (N.to_nat (e0 - s0)) (xx :: post))).
+  { apply (read_loop_gen _ rd' mbr_new (e0 - s0) [] (xx :: post) z).
+    - exact Hninv.
+    - constructor; assumption.
+    - constructor; assumption.
+    - rewrite Hnview. cbn [app]. rewrite Hv', fr_cons, <- app_assoc. reflexivity.
+    - assert (nlen (c_all c) = nlen (pre ++ mid) + nlen (xx :: post))
+        by (rewrite Hall', nlen_app; reflexivity).
+      assert (nlen (pre ++ mid) = N.of_nat k0) by (unfold nlen; rewrite app_length; lia).
+      lia.
+    - (* fuel: the reader behind the skipped records is a suffix of the file *)
+      assert (Hfu : (length (tail_from (c_file c) (DATA0 + frl pre + frl mid))
+                     <= 1024 * scan_fuel (c_file c) (DATA0 + frl pre + frl mid))%nat)
+        by (apply scan_fuel_enough; [exact Hfok|lia]).
+      rewrite tail_from_length in Hfu by (try exact Hfok; lia).
+      rewrite Hv'.
+      assert (Hlen : length (rdr_view (rdr_open (c_file c) (DATA0 + frl pre))) =
+                     N.to_nat (f_len (c_file c) - (DATA0 + frl pre))).
+      { rewrite (rdr_open_view _ _ Hfok Hpos). apply tail_from_length; [exact Hfok|lia]. }
+      rewrite Hz, !app_length in Hlen. unfold frl, nlen in *. rewrite !app_length. lia. }
+  rewrite Hloop. cbn [rev app]. f_equal. f_equal. f_equal.
+  rewrite Hall'. fold k0. rewrite skipn_app.
+  assert (Hpm : length (pre ++ mid) = k0) by (rewrite app_length; lia).
+  rewrite Hpm, Nat.sub_diag. cbn [skipn]. rewrite skipn_all2 by lia. reflexivity.
 Qed.
